@@ -275,13 +275,14 @@ def fresh_part(ctx, thorough):
     if res.violated:
         ctx.violation(f"model-fresh:{res.violated}", "the freshness design model violates the invariant", {"tlc": res.error_trace[:80]})
         return {}
-    ctx.require_coverage(res, ["Edit", "Commit", "Pull", "Request"])
-    dev = ctx.tlc("MCServeFresh", "MCServeFresh_dev.cfg", workers=1, timeout=300, coverage=False, count=False,
-                  label="sanity: deviation id-with-head must violate ServedOnlyIfAllowed")
-    if dev.violated != "ServedOnlyIfAllowed":
-        raise vlib.ToolError(f"sanity run: deviation id-with-head was not rejected by TLC ({dev.violated})")
+    ctx.require_coverage(res, ["Edit", "Commit", "Pull", "Block", "Request"])
+    for cfgd, name in (("MCServeFresh_dev.cfg", "id-with-head"), ("MCServeFresh_dev2.cfg", "fail-open")):
+        dev = ctx.tlc("MCServeFresh", cfgd, workers=1, timeout=300, coverage=False, count=False,
+                      label=f"sanity: deviation {name} must violate ServedOnlyIfAllowed")
+        if dev.violated != "ServedOnlyIfAllowed":
+            raise vlib.ToolError(f"sanity run: deviation {name} was not rejected by TLC ({dev.violated})")
     cases = [c for c in res.cases if c.get("ops")]
-    limit = 240 if thorough else 71
+    limit = 240 if thorough else 64
     if len(cases) > limit:
         rnd = random.Random(ctx.seed * 31 + 7)
         # keep every behaviour in which a pull follows an edit without a commit in between (the narrow case)
@@ -295,7 +296,9 @@ def fresh_part(ctx, thorough):
                 elif op[0] == "pull" and seen_edit:
                     return True
             return False
-        must = [c for c in cases if narrow(c) and c["expect"] == "refused"]
+        def blocked_locked(c):
+            return ["block"] in c["ops"] and c["ops"][-1] == ["request", "locked"]
+        must = [c for c in cases if (narrow(c) and c["expect"] == "refused") or blocked_locked(c)]
         rest = [c for c in cases if c not in must]
         cases = rnd.sample(must, min(len(must), limit // 2)) + rnd.sample(rest, min(len(rest), limit - min(len(must), limit // 2)))
 
@@ -311,7 +314,7 @@ def fresh_part(ctx, thorough):
 
     with ThreadPoolExecutor(max_workers=6) as ex:
         results = list(ex.map(one, enumerate(cases)))
-    stats = {"behaviours": len(cases), "conclusive": 0, "inconclusive": 0, "served": 0, "refused": 0, "refused_where_model_serves": 0, "pulls_checked": 0}
+    stats = {"behaviours": len(cases), "conclusive": 0, "inconclusive": 0, "served": 0, "refused": 0, "refused_where_model_serves": 0, "pulls_checked": 0, "locked_requests": 0}
     for r in results:
         # the owner's visibility at each pull, by the model
         odoc, expected = "public", []
@@ -335,14 +338,20 @@ def fresh_part(ctx, thorough):
             continue
         stats["conclusive"] += 1
         stats[r["outcome"]] += 1
+        stats["locked_requests"] += 1 if r["ops"][-1] == ["request", "locked"] else 0
         if r["outcome"] == "served" and r["expect"] == "refused":
-            ctx.violation("fresh-identity served-to-excluded-peer",
-                          f"the seed served the repository to a peer its last pulled identity document excludes (behaviour {json.dumps(r['ops'])})",
+            blocked = ["block"] in r["ops"]
+            ctx.violation("fresh-identity served-blocked-repository" + ("-under-lock" if r["ops"][-1] == ["request", "locked"] else "") if blocked else "fresh-identity served-to-excluded-peer",
+                          (f"the seed served a repository it has blocked (behaviour {json.dumps(r['ops'])})" if blocked else
+                           f"the seed served the repository to a peer its last pulled identity document excludes (behaviour {json.dumps(r['ops'])})"),
                           {"engine": "c12_e2e", "case": {"ops": r["ops"], "expect": r["expect"]}, "observed": r})
         elif r["outcome"] == "refused" and r["expect"] == "served":
             stats["refused_where_model_serves"] += 1
     if stats["conclusive"] == 0 or stats["pulls_checked"] == 0:
         raise vlib.ToolError(f"freshness part: no conclusive behaviour on the real nodes ({[r['inconclusive'] for r in results[:3]]})")
+    if not any(["block"] in r["ops"] and r["ops"][-1] == ["request", "locked"] and not r["inconclusive"] for r in results):
+        if not ctx.violations:
+            raise vlib.ToolError("vacuous freshness part: no conclusive request under a locked policy database for a blocked repository")
     if stats["served"] == 0 or stats["refused"] == 0:
         if not ctx.violations:
             raise vlib.ToolError(f"vacuous freshness part: served={stats['served']} refused={stats['refused']}")
